@@ -25,6 +25,10 @@ pub struct Case {
 pub enum Dev {
     Row { k: usize, in_closure: bool, d: Sc },
     Witness(Fault),
+    /// two consecutive constraint rows shifted by +d and -d (errors that cancel in the plain sum)
+    RowPair { k: usize, in_closure: bool, d: Sc },
+    /// left and right wire of one gate off by +d and -d, output recomputed consistently (l*r)
+    GateLR { at: usize, gate: usize, d: Sc },
 }
 
 pub fn deltas(i: usize) -> Sc {
@@ -43,6 +47,13 @@ pub fn enumerate_devs<G: AffineRepr>(prog: &Program, honest: &crate::interp::cur
     for (k, in_closure) in prog.constrain_sites().into_iter().enumerate() {
         v.push(Dev::Row { k, in_closure, d: deltas(di) });
         di += 1;
+    }
+    let sites = prog.constrain_sites();
+    for k in 0..sites.len().saturating_sub(1) {
+        if sites[k] == sites[k + 1] {
+            v.push(Dev::RowPair { k, in_closure: sites[k], d: deltas(di) });
+            di += 1;
+        }
     }
     for idx in 0..prog.n_commits() {
         v.push(Dev::Witness(Fault::Commit { idx, d: deltas(di) }));
@@ -82,6 +93,8 @@ pub fn enumerate_devs<G: AffineRepr>(prog: &Program, honest: &crate::interp::cur
         let at = gate_created_at.get(gate).copied().unwrap_or(end);
         v.push(Dev::Witness(Fault::Gate { at, gate, comp: (gate % 3) as u8, d: deltas(di) }));
         di += 1;
+        v.push(Dev::GateLR { at: end, gate, d: deltas(di) });
+        di += 1;
     }
     v
 }
@@ -105,6 +118,28 @@ fn run_case<G: AffineRepr>(env: &Env<G>, c: &Case) -> CaseOut {
         }
         let (p2, faults, kind): (Program, Vec<Fault>, &str) = match dev {
             Dev::Row { k, d, .. } => (prog.with_row_shift(*k, d.clone()), vec![], "row-constant"),
+            Dev::RowPair { k, d, .. } => {
+                let neg = Sc::Mul(Box::new(Sc::I(-1)), Box::new(d.clone()));
+                (prog.with_row_shift(*k, d.clone()).with_row_shift(*k + 1, neg), vec![], "row-pair(+d,-d)")
+            }
+            Dev::GateLR { at, gate, d } => {
+                // l' = l + d, r' = r - d, o' = l' * r'  (gate equation holds, both wiring rows are off)
+                let m = &honest.st.model;
+                let (l, r) = (m.honest.al[*gate], m.honest.ar[*gate]);
+                let dv: F<G> = crate::sc::resolve(d, &m.chals);
+                let o_new = (l + dv) * (r - dv);
+                let od = o_new - m.honest.ao[*gate];
+                let od_sc = crate::sc::lit(&od);
+                (
+                    prog.clone(),
+                    vec![
+                        Fault::Gate { at: *at, gate: *gate, comp: 0, d: d.clone() },
+                        Fault::Gate { at: *at, gate: *gate, comp: 1, d: Sc::Mul(Box::new(Sc::I(-1)), Box::new(d.clone())) },
+                        Fault::Gate { at: *at, gate: *gate, comp: 2, d: od_sc },
+                    ],
+                    "gate-left+d,right-d",
+                )
+            }
             Dev::Witness(f) => (
                 prog.clone(),
                 vec![f.clone()],
@@ -126,7 +161,8 @@ fn run_case<G: AffineRepr>(env: &Env<G>, c: &Case) -> CaseOut {
             return o;
         }
         let phase = match dev {
-            Dev::Row { in_closure, .. } => if *in_closure { "p2" } else { "p1" },
+            Dev::Row { in_closure, .. } | Dev::RowPair { in_closure, .. } => if *in_closure { "p2" } else { "p1" },
+            Dev::GateLR { gate, .. } => if *gate < m.n1() { "p1" } else { "p2" },
             Dev::Witness(Fault::Gate { gate, .. }) => if *gate < m.n1() { "p1" } else { "p2" },
             Dev::Witness(Fault::Alloc { at, .. }) => if *at < prog.ops.len() { "p1" } else { "p2" },
             _ => "p1",
